@@ -211,7 +211,7 @@ def run(chk, replay=None):
         n = rng.choice([0, 1, 5, 200, 2000])
         table = {e: typed_event(e + 6, t, chk.seed) for e in range(1, n + 1)}
         table = {e: ((v[0] + '#%d' % e)[:255],) + v[1:] for e, v in table.items()}
-        src = {'evs': list(range(1, n + 1)), 'cid': rng.choice([-1, 0, 42]), 'name': rng.choice([-1, 3]), 'region': rng.random() < 0.5}
+        src = {'evs': list(range(1, n + 1)), 'cid': rng.choice([-1, 0, 42, -12345]), 'name': rng.choice([-1, 3]), 'region': rng.random() < 0.5}
         hist = rng.choice([['write', 'load_ascii'], ['write_noheader', 'append', 'load_ascii'], ['to_dict', 'from_dict'],
                            ['write_json', 'load_json'], ['to_df', 'from_df'], ['write', 'load_ascii', 'write_json', 'load_json', 'to_df', 'from_df']])
         steps = R.run_history(src, hist, table)
